@@ -242,6 +242,20 @@ def generate(repo):
         if needle not in cn:
             raise ValueError("document.rs condense_number_suffixes: expected %r" % needle)
 
+    # condense_indices (Number.condense_indices: ci_spans, the first chunk, ci_mid, the last chunk; C17_lint_list runs it
+    # with any number of merges): the whole body, verbatim up to white space
+    ci = re.sub(r"\s+", " ", body_of(doc, r"fn condense_indices\(&mut self, indices: &\[usize\], stretch_len: usize\)\s*\{")).strip()
+    ci_expected = ("for idx in indices { let end_tok = self.tokens[idx + stretch_len - 1].clone(); "
+                   "let start_tok = &mut self.tokens[*idx]; start_tok.span.end = end_tok.span.end; } "
+                   "let old = self.tokens.clone(); self.tokens.clear(); "
+                   "self.tokens .extend_from_slice(&old[0..indices.first().copied().unwrap_or(indices.len())]); "
+                   "let mut iter = indices.iter().peekable(); "
+                   "while let (Some(a_idx), b) = (iter.next(), iter.peek()) { self.tokens.push(old[*a_idx].clone()); "
+                   "if let Some(b_idx) = b { self.tokens .extend_from_slice(&old[a_idx + stretch_len..**b_idx]); } } "
+                   "self.tokens.extend_from_slice( &old[indices .last() .map(|v| v + stretch_len) .unwrap_or(indices.len())..], );")
+    if ci != ci_expected:
+        raise ValueError("document.rs condense_indices: the body is not the one Number.condense_indices models: %r" % ci)
+
     def coq_list(items):
         return "[" + "; ".join(items) + "]"
 
